@@ -124,11 +124,14 @@ OnlyCompleteAccepted == Done => (o.accepted <=> c.corr = "none")
 (* a descent block (TAS, ROCD, fuel); the model table gets three rows per     *)
 (* climb and cruise block and one per descent block, descent ROCD negative.   *)
 \* the lowest level of a PTF file may be flight level 0 (as in the BADA files)
-PtfCases == [nfl : 2..3, cruise_from : 1..2, k : {0, 1, 2}, fl0 : {0, 30, 150}]
+\* top = "near_ceiling": at its highest level the aircraft hardly climbs any more - rates of climb of three, two and ONE
+\* digit (600, 90, 7 ft/min), as in BADA files near the ceiling
+PtfCases == [nfl : 2..3, cruise_from : 1..2, k : {0, 1, 2}, fl0 : {0, 30, 150}, top : {"ordinary", "near_ceiling"}]
 PtfFlOf(x, n) == x.fl0 + 100 * (n - 1)
 PtfRow(x, n) == [fl |-> PtfFlOf(x, n),
                  cruise |-> IF n >= x.cruise_from THEN <<400 + 10 * n + x.k, 60 + n, 64 + n + x.k, 68 + n + 2 * x.k>> ELSE <<>>,
-                 climb |-> <<300 + 10 * n, 5000 - 100 * n, 4000 - 100 * n - x.k, 3000 - 100 * n, 90 - n>>,
+                 climb |-> IF x.top = "near_ceiling" /\ n = x.nfl THEN <<300 + 10 * n, 600, 90, 7, 90 - n>>
+                           ELSE <<300 + 10 * n, 5000 - 100 * n, 4000 - 100 * n - x.k, 3000 - 100 * n, 90 - n>>,
                  descent |-> <<350 + n, 1500 + 10 * n + x.k, 9 + n>>]
 PtfRows(x) == [n \in 1..x.nfl |-> PtfRow(x, n)]
 \* expected table rows in PTF units: <<phase, FL, mass label, tas kt, rocd fpm, fuel kg/min>>
